@@ -1,10 +1,7 @@
 (* C17 Behaviour does not depend on optional feature flags.  Feature selection is a build-time fact below the model; the model has
    one definition of SmallString (bytes) and no cfg.  What is stated here is only that every configuration is compared with ONE function. *)
 Load "coq/props/Hdr".
-Lemma src_rt : rt_ok cfg. Proof. apply conds_rt_ok. vm_compute. reflexivity. Qed.
-Lemma src_tbl : tbl_ok cfg. Proof. apply conds_tbl_ok. vm_compute. reflexivity. Qed.
-Lemma src_cfg_ok : cfg_ok cfg. Proof. exact (rt_cfg _ src_rt). Qed.
-Ltac sc := sidecond_with src_rt src_tbl.
+Lemma src_cfg_ok : cfg_ok cfg. Proof. sc. Qed.
 Theorem C17_model_is_a_function : forall s r1 r2, parse cfg G s = r1 -> parse cfg G s = r2 -> r1 = r2.
 Proof. intros s r1 r2 <- <-. reflexivity. Qed.
 Print Assumptions C17_model_is_a_function.
